@@ -226,4 +226,38 @@ theorem specSetValue_joins (a : AState) (h : CH) (n : Name) (v : Option V) (y : 
       simp [hne]
     · simp
 
+-- ---- the hypotheses of the closed forms hold for the abstraction of every store satisfying `Inv` ------------------------------------------
+
+/-- in the abstraction of a store satisfying `Inv`, a loop is determined by (container, number) -/
+theorem absS_keys_unique (d : Db) (hinv : Inv d) (y : ALoop) (hy : y ∈ (absS d).loops) :
+    ∀ z ∈ (absS d).loops, (z.cid == y.cid && z.num == y.num) = true → z = y := by
+  intro z hz hk
+  have hy' : y ∈ d.loops.map (absALoop d) := hy
+  have hz' : z ∈ d.loops.map (absALoop d) := hz
+  obtain ⟨x, hx, rfl⟩ := List.mem_map.mp hy'
+  obtain ⟨x', hx', rfl⟩ := List.mem_map.mp hz'
+  have hk' : x'.cid = x.cid ∧ x'.loopNum = x.loopNum := by
+    have : (x'.cid == x.cid && x'.loopNum == x.loopNum) = true := hk
+    simpa using this
+  rw [loopKey_unique d.loops hinv.loopPK x' hx' x hx hk'.1 hk'.2]
+
+/-- … and the loop number a container hands out next is not in use -/
+theorem absS_fresh (d : Db) (hinv : Inv d) (cid : Nat) (c : ContainerRow)
+    (hc : (absS d).containers.find? (fun r => r.id == cid) = some c) : (absS d).findLoop cid c.nextLoopNum = none := by
+  have hc' : d.containers.find? (fun r => r.id == cid) = some c := hc
+  have hcm := List.mem_of_find?_eq_some hc'
+  have hck := List.find?_some hc'
+  have hcid : c.id = cid := by simpa using hck
+  rw [findLoop_absS]
+  cases hf : d.loops.find? (fun x => x.cid == cid && x.loopNum == c.nextLoopNum) with
+  | none => rfl
+  | some x =>
+    exfalso
+    have hxm := List.mem_of_find?_eq_some hf
+    have hxk := List.find?_some hf
+    simp only [Bool.and_eq_true, beq_iff_eq] at hxk
+    have := hinv.ext.loopNumsBelow c hcm x hxm (by rw [hxk.1, hcid])
+    omega
+
+
 end CifModel.Store
